@@ -527,3 +527,5 @@ func init() { vRegister("C11", checkC11) }
 func TestC11(t *testing.T) { vRunProp(t, "C11", genC11, checkC11) }
 
 func TestReplay(t *testing.T) { vReplay(t) }
+
+func FuzzC11(f *testing.F) { vFuzzProp(f, "C11", genC11, checkC11) }
